@@ -131,10 +131,13 @@ def profile_stream(rep, drv, r, n):
     yy, xx = np.mgrid[0:25, 0:25]
     img = np.round(50 * np.exp(-((xx - 12.2) ** 2 + (yy - 11.7) ** 2) / 18.0) * 64) / 64 + 1.0
     err = np.full(img.shape, 0.5)
+    img_pos = img
     lines, checks = [], []
     names = ['profile', 'profile_error', 'data_profile']
     for k in range(n):
         cls = RadialProfile if k % 3 else CurveOfGrowth
+        # every 4th history: an over-subtracted image (negative everywhere), so that the normalisation constants are negative
+        img = -img_pos if k % 4 == 1 else img_pos
         radii = np.arange(0, 9) if cls is RadialProfile else np.arange(1, 9)
 
         def mk():
@@ -150,16 +153,21 @@ def profile_stream(rep, drv, r, n):
         ops = []
         toks = []
         obj = mk()
+        a_ = 1.0                                                 # scale of the profile array so far (input bookkeeping for the model's parameter m)
         for _ in range(r.randint(1, 6)):
             t = r.random()
             if t < 0.35:
                 meth = r.choice(['max', 'sum'])
-                m = float(np.nanmax(rawv['profile'])) if meth == 'max' else float(np.nansum(rawv['profile']))
+                cur = a_ * rawv['profile']
+                nn = float(np.nanmax(cur)) if meth == 'max' else float(np.nansum(cur))
                 ops.append(('normalize', meth))
-                toks.append('n:' + q(m))
+                toks.append('n:' + q(nn / a_))                   # the model multiplies by the profile's current scale
+                if nn != 0:
+                    a_ /= nn
             elif t < 0.55:
                 ops.append(('unnormalize',))
                 toks.append('u')
+                a_ = 1.0
             else:
                 kk = r.randrange(nk)
                 ops.append(('read', names[kk]))
@@ -498,6 +506,9 @@ def run(rep, tier):
     # model / residual images of (Iterative)PSFPhotometry in either call order vs fresh objects (shared with C18)
     from props import c18
     c18.iterative_images(rep, r, 3 * scale)
+    # encircled-energy interpolators before / after normalisation changes on one object (shared with C19)
+    from props import c19
+    c19.ee_stream(rep, drv, r, 8 * scale)
 
 
 def replay(rep, data):
